@@ -21,6 +21,10 @@ pub struct Block {
     /// use the connection shared by all threads (only for `: Send + Sync` interfaces, `&self` methods)
     pub shared: bool,
     pub calls: Vec<CallSpec>,
+    /// create the connection towards this revision of the family instead of the interface's own
+    /// (an incompatible one: creation is expected to fail, identically in every schedule)
+    #[serde(default)]
+    pub to_rev: Option<usize>,
 }
 
 #[derive(Clone, Debug, Serialize, Deserialize)]
@@ -43,11 +47,16 @@ fn block_strategy(w: &World, pool: &[(usize, usize)]) -> BoxedStrategy<Block> {
         let fam = &w.fams[*fi];
         let all: Vec<BoxedStrategy<CallSpec>> = fam.revs[*ri].methods.iter().map(|m| call_spec(fam, *ri, *ri, &m.name, o)).collect();
         let pi2 = pi;
-        alts.push(proptest::collection::vec(proptest::strategy::Union::new(all), 1..=4).prop_map(move |calls| Block { iface: pi2, shared: false, calls }).boxed());
+        alts.push(proptest::collection::vec(proptest::strategy::Union::new(all), 1..=4).prop_map(move |calls| Block { iface: pi2, shared: false, calls, to_rev: None }).boxed());
+        // connection attempts towards an incompatible revision of the same family (negotiation fails)
+        let others: Vec<usize> = if fam.revs[*ri].is_breaking() { fam.compat_revs() } else { fam.breaking_revs() };
+        for j in others.into_iter().take(2) {
+            alts.push(Just(Block { iface: pi2, shared: false, calls: vec![], to_rev: Some(j) }).boxed());
+        }
         if fam.send_sync {
             let refs: Vec<BoxedStrategy<CallSpec>> = fam.revs[*ri].methods.iter().filter(|m| !m.mut_self).map(|m| call_spec(fam, *ri, *ri, &m.name, o)).collect();
             if !refs.is_empty() {
-                alts.push(proptest::collection::vec(proptest::strategy::Union::new(refs), 1..=4).prop_map(move |calls| Block { iface: pi2, shared: true, calls }).boxed());
+                alts.push(proptest::collection::vec(proptest::strategy::Union::new(refs), 1..=4).prop_map(move |calls| Block { iface: pi2, shared: true, calls, to_rev: None }).boxed());
             }
         }
     }
@@ -97,7 +106,7 @@ fn run_thread(w: &World, case: &Case, ctx: &Arc<Ctx>, shared: &[Option<Arc<dyn S
                 continue;
             }
         }
-        match w.drivers[fi][ri].connect(ctx, ConnMode::Abi) {
+        match w.drivers[fi][ri].connect(ctx, match b.to_rev { Some(j) => ConnMode::AbiTo(j), None => ConnMode::Abi }) {
             Ok(mut c) => {
                 out.push(Res::Created);
                 for spec in &b.calls {
@@ -119,6 +128,17 @@ pub fn observe(w: &World, case: &Case, concurrent: bool) -> Obs {
     let ctx = Ctx::new();
     ctx.quiet.store(true, std::sync::atomic::Ordering::Relaxed);
     ctx.pseed.store(case.seed, std::sync::atomic::Ordering::Relaxed);
+    // user code in Drop: every implementation object that is dropped creates one more connection
+    // (runs in this freshly forked process only; the reference is not used after `observe`)
+    {
+        let w_static: &'static World = unsafe { std::mem::transmute::<&World, &'static World>(w) };
+        let (fi0, ri0) = case.pool[0];
+        *abirt::IMPL_DROP_HOOK.write().unwrap() = Some(Box::new(move || {
+            let c = Ctx::new();
+            c.quiet.store(true, std::sync::atomic::Ordering::Relaxed);
+            let _ = w_static.drivers[fi0][ri0].connect(&c, ConnMode::Abi);
+        }));
+    }
     let mut shared_create_errors = vec![];
     // shared connections exist before the threads start (their creation is not raced)
     let wants_shared: Vec<bool> = (0..case.pool.len()).map(|pi| case.programs[..n].iter().flatten().any(|b| b.shared && b.iface == pi)).collect();
@@ -168,7 +188,21 @@ pub fn observe(w: &World, case: &Case, concurrent: bool) -> Obs {
         }
     }
     drop(shared);
-    let ledger_bad = ctx.ledger().into_iter().filter(|t| t.drops != 1).map(|t| format!("{}:{}", t.label, t.drops)).collect();
+    *abirt::IMPL_DROP_HOOK.write().unwrap() = None;
+    // an implementation object handed to a connection attempt that fails is not dropped by the
+    // library (it is leaked); whether it is dropped is not part of this property
+    let failed_targets: std::collections::HashSet<String> = case
+        .programs
+        .iter()
+        .flatten()
+        .filter_map(|b| b.to_rev.map(|j| format!("impl {}", w.fams[case.pool[b.iface].0].path(j))))
+        .collect();
+    let ledger_bad = ctx
+        .ledger()
+        .into_iter()
+        .filter(|t| t.drops != 1 && !(t.drops == 0 && failed_targets.contains(&t.label)))
+        .map(|t| format!("{}:{}", t.label, t.drops))
+        .collect();
     Obs { results, unfinished_threads: unfinished, ledger_bad, shared_create_errors }
 }
 
